@@ -290,8 +290,27 @@ def check_property(pid, tier, seed):
     api = ctx.beh.get('api_mismatch', {})
     searched = 0
     seen_decl = set()
+
+    def klass(o):
+        # one representative per kind of accessor first: the harmful part of a change often concerns one kind only
+        d = ctx.by_name[o['decl']]
+        if d['kind'] != 'bitfield':
+            return ('enum',)
+        kind, f = field_of(d, o['label'])
+        if f is None:
+            return (o['label'],)
+        return (kind, f['ty']['k'], is_list(f), f.get('count') is not None, d['base'] in D.NATIVE, d['base'] > 64)
+    seen_k = {}
     for o in failing:
-        if len(violations) >= 12:
+        seen_k.setdefault(klass(o), []).append(o)
+    ordered = []
+    while any(seen_k.values()):
+        for k in list(seen_k):
+            if seen_k[k]:
+                ordered.append(seen_k[k].pop(0))
+    found = 0
+    for o in ordered:
+        if len(violations) >= 16 or (found >= 3 and len(violations) >= 6):
             break
         d = ctx.by_name[o['decl']]
         if o['label'] == 'verdict':
@@ -312,11 +331,12 @@ def check_property(pid, tier, seed):
             violations.append((write_replay(pid, payload), ''))
             continue
         w = None
-        if d['kind'] == 'bitfield' and searched < 10 and (o['decl'], o['label']) not in seen_decl:
+        if d['kind'] == 'bitfield' and searched < 24 and (o['decl'], o['label']) not in seen_decl:
             searched += 1
             seen_decl.add((o['decl'], o['label']))
             w = directed_search(ctx, d, o['label'])
         if w is not None:
+            found += 1
             payload['witness'] = w
             violations.append((write_replay(pid, payload), ''))
             reported.add((w['decl'], w.get('field'), w.get('op')))
